@@ -9,6 +9,7 @@ import CM.Proofs.StackLemmas
 import CM.Proofs.BagReverse
 import CM.Proofs.LoopbackDen
 import CM.Proofs.FactoryCtx
+import CM.Proofs.BagTerm
 namespace CM.C10
 open CM
 
@@ -450,5 +451,48 @@ theorem node_decorated_single_inverse (b fb r : Bag) (h : b.loopbackWith fb = .o
   simp only [List.zip_cons_cons, List.zip_nil_right, List.mem_singleton] at hq
   subst hq
   exact hbn
+
+/-- a layer `def a(a): ...; @inverse def a(a): ...` written as a container: input 0, forward output 1, backward input 2, backward output 3 -/
+def exLayerBag : Bag :=
+  { inputs := [⟨0, "a"⟩], outputs := [⟨1, "a"⟩],
+    edges := [{ edge := .function "L.a" [] [], ins := [⟨0, "a"⟩], out := ⟨1, "a"⟩ },
+              { edge := .function "L.inv.a" [] [], ins := [⟨2, "a"⟩], out := ⟨3, "a"⟩ }],
+    virt := .fin [], persistent := [], optional := [], ctx := .bag [⟨2, "a"⟩] [⟨3, "a"⟩] (.fin []), next := 4 }
+
+/-- non-vacuity (a test): the layer above decorated around `f(a) -> a`: the decorated graph exists, its output `a` is the layer's backward output,
+and the executable term function (`Bag.term`, sound by `term_sound`) computes `L.inv.a(F(L.a(a)))` for it: forward, then `f`, then the inverse -/
+example :
+    (match functionToBag "F" ["a"] ["a"] true with
+     | .ok fb =>
+       (match exLayerBag.loopbackWith fb with
+        | .ok r => r.outputs.map (·.name) == ["a"] &&
+            (match r.outputs.map fun o => r.term 20 o with
+             | [some (.node (.function "L.inv.a" [] []) [.node (.function "F" [] []) [.node (.function "L.a" [] []) [.inp "a"]]])] => true
+             | _ => false)
+        | .error _ => false)
+     | .error _ => false) = true := by
+  decide +kernel
+
+/-- a second layer of the same shape with other functions -/
+def exLayerBag2 : Bag :=
+  { inputs := [⟨0, "a"⟩], outputs := [⟨1, "a"⟩],
+    edges := [{ edge := .function "M.a" [] [], ins := [⟨0, "a"⟩], out := ⟨1, "a"⟩ },
+              { edge := .function "M.inv.a" [] [], ins := [⟨2, "a"⟩], out := ⟨3, "a"⟩ }],
+    virt := .fin [], persistent := [], optional := [], ctx := .bag [⟨2, "a"⟩] [⟨3, "a"⟩] (.fin []), next := 4 }
+
+/-- non-vacuity (a test): two layers, `L` then `M`, decorated around `f`: forward `L.a`, `M.a`, then `f`, then the inverses in REVERSE order -
+`L.inv.a(M.inv.a(F(M.a(L.a(a)))))` -/
+example :
+    (match connectBags exLayerBag exLayerBag2, functionToBag "F" ["a"] ["a"] true with
+     | .ok chain, .ok fb =>
+       (match chain.loopbackWith fb with
+        | .ok r =>
+            (match r.outputs.map fun o => r.term 40 o with
+             | [some (.node (.function "L.inv.a" [] []) [.node (.function "M.inv.a" [] []) [.node (.function "F" [] [])
+                  [.node (.function "M.a" [] []) [.node (.function "L.a" [] []) [.inp "a"]]]]])] => true
+             | _ => false)
+        | .error _ => false)
+     | _, _ => false) = true := by
+  decide +kernel
 
 end CM.C10
